@@ -37,7 +37,47 @@ def run_case(cs, ctx):
     ctx.sample(lc.brief(r))
 
 
+KF2_BIG = 2 ** 53 + 1
+KF2_SPEC = {'na': 3, 'ns': 2, 'np': 2, 'nl': 1, 'st': [[[1], [2]], [[2]]], 'plq': [2, 0], 'puq': [KF2_BIG, 1], 'plec': [1, 1],
+            'llq': [0], 'lt': [KF2_BIG], 'luq': [KF2_BIG], 'lec': [[[1], [2]]], 'shape': 'known_finding_probe'}
+KF2_OPTS = {'twopl': False, 'pc': True, 'stab': False, 'crits': [['maxsize', 1, []]]}
+
+
+def known_finding_probe(ctx):
+    """KF2 (known_findings.json): re-run the listed witness; while it still fails the runner prints the
+    KNOWN-FINDING line, once it is repaired the line disappears."""
+    import random
+    from .. import engine as en
+    from .. import outparse as op
+    ex = en.run_lp(KF2_SPEC, KF2_OPTS, ctx.workdir, random.Random(0), inject=False, noise=False, second_side=False)
+    ctx.cnt('known_finding_probes')
+    case = {'cs': 'KF2', 'profile': 'known_finding_probe', 'spec': KF2_SPEC, 'opts': KF2_OPTS}
+    case.update(en.light(ex))
+    # judged directly (what the user sees), NOT through judge_lp: the trusted-base monitor classes this execution
+    # as "the back end returned a point that violates the problem it was given" and would exclude it - here the
+    # problem it was given has coefficients beyond what doubles represent, which is the program's doing
+    try:
+        res = op.parse_results(ex['short'])
+        m = res['stats'].get('matching')
+        if res.get('status') == 'Optimal' and m is not None:
+            why = rm.validity(rm.Inst(KF2_SPEC, False), m, True)
+            if why is not None:
+                ctx.finding(en.F('C01', 'valid_matching', 'printed matching %s is not valid: %s' % (list(m), why)), case)
+    except Exception:
+        pass
+
+
+def run_shard(ctx):
+    from ..worker import generic_loop
+    import sys
+    if ctx.shard == 0:
+        known_finding_probe(ctx)
+    generic_loop(sys.modules[__name__], ctx)
+
+
 def replay(w, ctx):
+    if w['case'].get('cs') == 'KF2':
+        return known_finding_probe(ctx)
     run_case(w['case']['cs'], ctx)
 
 
